@@ -28,6 +28,7 @@ LEVEL_TEXT = (
     "matrices; call-exact on a pool agrees with call-exact on a physically merged BAM within output rounding."
 )
 LEVEL_TEXT += " Session 3: datasets whose samples are read-group IDs (--read-group-field ID, two read groups per SM), the three spellings of --bam (paths, one-column list, sample<TAB>path list), and every program's columns from shared files compared with runs on physically separate per-sample files."
+LEVEL_TEXT += ' Session 4: a wide kind - 150-190 samples in one BAM listing more than 127 ALT alleles at one locus; samples using the highest allele numbers are assembled alone and compared.'
 LEVEL_NOTE = "Pool-vs-merged comparison for the MCMC programs is limited to the read matrix (the order of de-duplicated reads differs between a pool and a merged BAM, so sampler floating point sums may differ in the last ulp); call-exact is compared numerically with tolerance 0.0015."
 RULE = (
     "case = one (dataset, program, sample selection / order / pool assignment) comparison; non-trivial = involves >=2 samples; "
